@@ -284,8 +284,13 @@ def _extract_shortform_citation(
 
     # Get pin_cite
     cite_token = cast(CitationToken, words[index])
+    # The page doubles as the start of the pin cite ("515 U.S. at 241-42"),
+    # but only when it is the end of the matched citation. A few reporters
+    # have text after the page ("2019 CO at 12M"); gluing their page to the
+    # following words would produce a pin cite that is not in the document.
+    page = cite_token.groups["page"]
     pin_cite, span_end, parenthetical = extract_pin_cite(
-        words, index, prefix=cite_token.groups["page"]
+        words, index, prefix=page if str(cite_token).endswith(page) else ""
     )
     span_end = span_end if span_end else 0
 
